@@ -1,4 +1,5 @@
 import MocVerif.Model.STCodec
+import MocVerif.Model.Fits
 import MocVerif.Model.STText
 import Driver.Codec
 import Driver.Common
@@ -144,6 +145,12 @@ def stepSTCodec (toks : List String) : Option String :=
   | ["st_ascii_enc", w, d1, d2, m] => do
     let w ← w.toNat?; let d1 ← d1.toNat?; let d2 ← d2.toNat?; let m ← parseST m
     pure (hexOfString (STText.encodeTextST w d1 d2 m))
+  | ["st_fits_file", w, d1, d2, m] => do
+    -- the WHOLE ST FITS file: length and FNV-1a of the model's bytes
+    let w ← w.toNat?; let d1 ← d1.toNat?; let d2 ← d2.toNat?; let m ← parseST m
+    let bytes := Moc.Fits.stFile w d1 d2 (STCodec.encodeST w m)
+    let h := bytes.foldl (fun h b => ((h ^^^ b) * 1099511628211) % 2 ^ 64) 14695981039346656037
+    pure s!"{bytes.length}:{h}"
   | ["st_fits_dec", w, rows] => do
     let w ← w.toNat?; let rows ← parseRngs rows
     pure (showElems (STCodec.decodeST w rows))
